@@ -23,6 +23,8 @@ MA_ACTIONS = [
      ["and", ["forall", ["?z", "-", "t1"], ["when", ["q", "?a", "?z"], ["not", ["q", "?a", "?z"]]]]]),
     ("flag", [("?a", "t1")], ["and"], ["and", ["when", ["p", "?a"], ["r"]], ["assign", ["f", "?a"], ["g"]]]),
     ("charge", [("?a", "t1")], ["and", [">=", ["g"], ["f", "?a"]]], ["and", ["decrease", ["g"], ["f", "?a"]], ["not", ["r"]]]),
+    ("audit", [("?a", "t1")], ["and", ["forall", ["?z", "-", "t1"], ["or", ["p", "?z"], ["q", "?a", "?z"]]]],
+     ["and", ["increase", ["f", "?a"], "2"]]),
 ]
 
 
